@@ -259,6 +259,9 @@ impl Selector {
     pub fn add_io_timer(&self, io: &IoData, timeout: Duration) {
         let id = io.fd as usize % self.vec.len();
         // info!("io timeout = {:?}", dur);
+        // remember when the timer is due before it is armed, see `EventData::store_co`
+        let ns = u64::try_from(timeout.as_nanos()).unwrap_or(u64::MAX);
+        io.deadline.store(now().saturating_add(ns), Ordering::Relaxed);
         let (h, b_new) = self.vec[id].timer_list.add_timer(timeout, io.timer_data());
         if b_new {
             // wake up the event loop thread to recall the next wait timeout
